@@ -841,6 +841,20 @@ func runC02B(c *core.Ctx, n int) {
 	c.Job("B/raddr", n, func(i int, r *core.Rand) {
 		m := gen.RouterAddress(r)
 		m.Expiration = [8]byte{} // the constructor always writes the null date
+		if i%12 == 7 {
+			// a string of more than 255 BYTES (fewer than 256 characters: multi-byte UTF-8) as option key,
+			// option value or transport style: there is no encoding for it - the constructor refuses, or
+			// (for the oracle below) the bytes would have to decode to these very fields
+			long := utf8OfLen(r, 256+r.Pick(45))
+			switch (i / 12) % 3 {
+			case 0:
+				m.Options.Pairs = append(append([]rm.Pair{}, m.Options.Pairs...), rm.Pair{K: []byte("zz-note"), V: long})
+			case 1:
+				m.Options.Pairs = append(append([]rm.Pair{}, m.Options.Pairs...), rm.Pair{K: long, V: []byte("v")})
+			default:
+				m.Style = long
+			}
+		}
 		want := m
 		want.Options = sortedMapping(m.Options)
 		c02B(c, "router_address.NewRouterAddress", gen.Shape{"opts": len(m.Options.Pairs), "style": len(m.Style)}, want, func() ([]byte, bool, error) {
